@@ -421,7 +421,8 @@ class ParametricSweepFactory:
                 "required_external_parameters": list(
                     getattr(cls, "_required_external", ())
                 ),
-                "context_keys": list(getattr(cls, "_from_context_keys", ())),
+                # sorted: the order in which the variables mapping lists them is cosmetic
+                "context_keys": sorted(getattr(cls, "_from_context_keys", ())),
             }
             return {
                 "type": "derive.parameter_sweep",
